@@ -1,6 +1,7 @@
 package main
 
 import (
+	"runtime/pprof"
 	"encoding/json"
 	"flag"
 	"fmt"
@@ -171,7 +172,7 @@ type HarnessResult struct {
 
 func runHarness(P *Program, spec HarnessSpec, workers int, solver string, verbose bool) *HarnessResult {
 	if spec.Unwind == 0 {
-		spec.Unwind = 12
+		spec.Unwind = 40
 	}
 	if spec.MaxPaths == 0 {
 		spec.MaxPaths = 20000
@@ -259,7 +260,13 @@ func cmdRun(args []string) {
 	solver := fs.String("solver", "z3", "")
 	tmo := fs.Int("timeout", 600, "")
 	verbose := fs.Bool("v", false, "")
+	cpuprof := fs.String("cpuprofile", "", "")
 	fs.Parse(args)
+	if *cpuprof != "" {
+		f, _ := os.Create(*cpuprof)
+		pprof.StartCPUProfile(f)
+		defer pprof.StopCPUProfile()
+	}
 	t0 := time.Now()
 	P, err := loadProgram(*hdir, []string{*pkg})
 	if err != nil {
